@@ -543,6 +543,12 @@ def main():
             clock_mod.Clock._hour_minute = orig
         n_wait += 1
         chk.count()
+        # tie: the model's `waitUntil` (theorem C11_wait_ends_at_first_match) on the same readings
+        upto = (hit + 2) if hit is not None else min(len(readings), 200)
+        requests.append(('tp.wait', [str(len(lst))] + list(lst) +
+                         ['{},{}'.format(r // 60, r % 60) for r in readings[:upto]],
+                         'never' if hit is None else str(hit),
+                         {'patterns': lst, 'readings': readings[:upto]}))
         if got != expect:
             chk.violation('wait-returns-at-wrong-minute',
                           '`time at {}` from {}:{:02d}, clock {}: returned at (minute of day, tick) {} instead '
